@@ -18,10 +18,26 @@ pub struct Linter
 	lints: Vec<Lint>,
 	is_naked_branch: Option<NakedBranch>,
 	is_first_statement_of_branch: Option<Branch>,
+	is_for_wasm: bool,
 }
 
 impl Linter
 {
+	/// Lint for WebAssembly, where `usize` is 32 bits wide.
+	pub fn for_wasm(&mut self)
+	{
+		self.is_for_wasm = true;
+	}
+
+	fn max_u128(&self, value_type: &ValueType) -> u128
+	{
+		match value_type
+		{
+			ValueType::Usize if self.is_for_wasm => u32::MAX as u128,
+			_ => value_type.max_u128(),
+		}
+	}
+
 	/// Generates lints for a declaration.
 	/// The lints are stored in the Linter
 	/// and can be retrieved by turning the Linter into `Vec<Lint>`.
@@ -297,7 +313,7 @@ impl Lintable for Expression
 				}
 				else
 				{
-					value as u128 > value_type.max_u128()
+					value as u128 > linter.max_u128(value_type)
 				};
 				if is_truncated
 				{
@@ -320,7 +336,7 @@ impl Lintable for Expression
 			} =>
 			{
 				let value: u128 = *value;
-				if value > value_type.max_u128()
+				if value > linter.max_u128(value_type)
 				{
 					let lint = Lint::IntegerLiteralTruncation {
 						value_type: value_type.clone(),
